@@ -141,8 +141,10 @@ PickShape == /\ stage = 2 /\ stage' = 3
              /\ PrintT(<<"SCEN", codec[1], codec[2], len, shape'[1], shape'[2], P(shape', 2), P(shape', 3), P(shape', 4)>>)
              /\ UNCHANGED <<codec, len>>
 RunMega == IF Thorough THEN {<<<<c, 0>>, 67826, <<"runs", r>>>> : c \in {"rle", "rle_hdr"}, r \in {67823, 67824}} ELSE {}
-PickMega == /\ stage = 0 /\ Purpose \in {"c06", "c02"} /\ stage' = 3
-            /\ \E m \in (IF Purpose = "c06" THEN MegaScenarios ELSE RunMega) :
+\* one run longer than 2^32 elements against the exact size predictor (the driver maps the zeros; length 1 here)
+GiantMega == IF Thorough THEN {<<<<"rle", 0>>, 1, <<"giantrun", 0>>>>} ELSE {}
+PickMega == /\ stage = 0 /\ Purpose \in {"c06", "c02", "c03"} /\ stage' = 3
+            /\ \E m \in (IF Purpose = "c06" THEN MegaScenarios ELSE IF Purpose = "c02" THEN RunMega ELSE GiantMega) :
                  /\ codec' = m[1] /\ len' = m[2] /\ shape' = m[3]
                  /\ PrintT(<<"SCEN", m[1][1], m[1][2], m[2], m[3][1], m[3][2], 0, 0, 0>>)
 Next == PickCodec \/ PickLen \/ PickShape \/ PickMega
@@ -151,5 +153,5 @@ Spec == Init /\ [][Next]_vars
 \* every leaf is a well-formed scenario
 TypeOK == /\ stage \in 0..3
           /\ stage = 3 => ((codec \in Codecs /\ len \in Lens(codec) /\ Applicable(codec, len, shape))
-                            \/ <<codec, len, shape>> \in (MegaScenarios \cup RunMega))
+                            \/ <<codec, len, shape>> \in (MegaScenarios \cup RunMega \cup GiantMega))
 =============================================================================
